@@ -503,6 +503,8 @@ def check_C14(report, tier, seed, replay=None):
             rc = Reactive(drv, rng, store=store, active=active, faults=fl, segment=random_segmenter(rng))
             ci, cm, _ = rc.both(("connect", b"user", b"secret", b"", False, None))
             before = rc.dump()
+            # the abstract rename (theorems of props/C14.v) on the same server state and fault plan
+            absline = drv.ask("rename_abs %s %s %s" % (hx(old), hx(new), ("%d:%s" % fault) if fault else "-"))
             ri, rm, detail = rc.both(("renamescript", old, new))
             after = rc.dump()
             mafter = rc.dump("model")
@@ -515,6 +517,14 @@ def check_C14(report, tier, seed, replay=None):
             if ci != cm or ri != rm or after["store"] != mafter["store"] or after["active"] != mafter["active"]:
                 report.broke("correspondence C14 (model client vs real client against the reference server)",
                              "impl=%r model=%r impl-store=%r model-store=%r" % (ri, rm, after, mafter), desc)
+            ares, adump = absline.split(" ", 1)
+            ad = dict(kv.split("=", 1) for kv in adump.split(" "))
+            mres = {"D:true": "true", "D:false": "false", "F:Error": "error"}.get(rm.split(" ")[0], rm.split(" ")[0])
+            mline = drv.ask("model_dump")
+            md = dict(kv.split("=", 1) for kv in mline.split(" "))
+            if ares != mres or ad["store"] != md["store"] or ad["active"] != md["active"]:
+                report.broke("refinement C14 (abstract rename_abs vs byte-level model client/server)",
+                             "abs=%s %s model=%s %s" % (ares, adump, mres, mline), desc)
             complaints = rename_oracle(before, after, old, new, ri.split(" ")[0])
             if after["bad"]:
                 complaints.append("server saw %d malformed/illegal command(s)" % after["bad"])
